@@ -16,7 +16,7 @@ carrying the encoded values, for ALL values of all the other fields of the frame
 import Rs1090.Model.Decode.Message
 import Rs1090.Spec.Encode
 import Rs1090.Props.C13
-import Rs1090.Proofs.C03Adsb
+import Rs1090.Proofs.C03Commb
 namespace Rs1090.Props.C03
 open Rs1090 Rs1090.Model Rs1090.Model.Message Rs1090.Spec Rs1090.Spec.Encode Rs1090.Props.C13 Rs1090.Proofs.C03
 
@@ -286,6 +286,9 @@ theorem signed512 : ∀ k : Int, -512 ≤ k → k < 512 →
     twosMag 9 k < 2 ^ 9 ∧ signBit k < 2 ∧ Bds50.signed 512 (signBit k) (twosMag 9 k) = .ok k ∧
     (twosMag 9 k = 511 ↔ (k = -1 ∨ k = 511)) :=
   enumInt 10 512 (by decide) (by decide +kernel)
+
+theorem signed1024 : ∀ k : Int, -1024 ≤ k → k < 1024 → twosMag 10 k < 2 ^ 10 ∧ signBit k < 2 ^ 1 :=
+  enumInt 11 1024 (by decide) (by decide +kernel)
 
 /-- **track angle rate, every code except the two the register treats as "no value" (±: magnitude bits
     all ones)**, with a roll angle of the same sign (or none): exact, `k·8/256` °/s -/
@@ -666,5 +669,322 @@ theorem df5_squawk (fs dr um q addr : Nat)
        fld (key! "icao24") (jhex6 addr)])) := by
   rw [← squawk_rt q hq]
   exact tryFrom_df5 fs dr um _ addr hfs hdr hum (id13OfOctal_lt q hq) haddr
+
+/-! ## Comm-B replies (DF 20 / DF 21)
+
+The MB field is decoded by hypothesis testing: every register reader is tried on the 56 bits and the
+ones that accept are reported under `bdsNN`.  A frame theorem therefore says: the reply decodes (never
+an error, a panic or a serialisation failure — C01's `common_noPanic` and C07's `common_good` are used
+here), its head is `df`, the altitude / squawk of the AC / ID field, its tail the address recovered from
+the AP overlay, and the register list `regs` in between holds the expected object under the
+register's key.  Other registers may *also* accept the same bits (that is the nature of the
+hypothesis test); nothing is claimed about them. -/
+
+theorem ac13_total : ∀ f, f < 2 ^ 13 → (ac13 f).isOk = true := enum 13 (by decide +kernel)
+
+/-- "a DF 20 and a DF 21 reply built by the Spec around the MB field `mb` carry the object `val` under
+    `key`" — for every FS, DR, UM, every 13-bit AC / ID code and every 24-bit address -/
+def CommbCarries (mb : List Field) (key : Key) (val : Fields) : Prop :=
+  ∀ fs dr um code addr, fs < 2 ^ 3 → dr < 2 ^ 5 → um < 2 ^ 6 → code < 2 ^ 13 → addr < 2 ^ 24 →
+    (∃ alt regs, ac13 code = .ok alt ∧
+      tryFrom (buildCommB 20 fs dr um code addr mb) = .ok (toDecoded (.ok
+        ([dfTag (key! "20"), fld (key! "altitude") (jnat alt)] ++ regs ++ [fld (key! "icao24") (jhex6 addr)]))) ∧
+      Fields.get? regs key = some (.obj val.toObj)) ∧
+    (∃ regs,
+      tryFrom (buildCommB 21 fs dr um code addr mb) = .ok (toDecoded (.ok
+        ([dfTag (key! "21"), fld (key! "squawk") (jhex4 (decodeId13 code))] ++ regs ++
+          [fld (key! "icao24") (jhex6 addr)]))) ∧
+      Fields.get? regs key = some (.obj val.toObj))
+
+theorem commbCarries_of (mb : List Field) (key : Key) (val : Fields)
+    (hw : width mb = 56) (hfit : fits mb = true) (hnz : NonZero mb)
+    (hget : ∀ b05 regs, Regs (Spec.Crc.pack (layout mb)) b05 regs → Fields.get? regs key = some (.obj val.toObj)) :
+    CommbCarries mb key val := by
+  intro fs dr um code addr hfs hdr hum hcode haddr
+  obtain ⟨alt, halt⟩ := isOk_elim (ac13_total code hcode)
+  constructor
+  · obtain ⟨b05, regs, hregs, _, htf⟩ := tryFrom_df20 fs dr um code addr alt mb hfs hdr hum hcode haddr hw hfit hnz halt
+    exact ⟨alt, regs, halt, htf, hget b05 regs hregs⟩
+  · obtain ⟨regs, hregs, htf⟩ := tryFrom_df21 fs dr um code addr mb hfs hdr hum hcode haddr hw hfit hnz
+    exact ⟨regs, htf, hget none regs hregs⟩
+
+/-- **BDS 2,0 in DF 20/21**: every valid call sign -/
+theorem commb_identification (cs : List Char) (hcs : validCallsign cs) :
+    CommbCarries (mb20 cs) (key! "bds20")
+      [fld (key! "bds") (.lit (key! "20")), fld (key! "callsign") (.chars cs)] := by
+  obtain ⟨c0, c1, c2, c3, c4, c5, c6, c7, hcodes, hlt⟩ := callsignCodes_eight cs hcs
+  have hmb : mb20 cs = (8, 0x20) :: chars8 c0 c1 c2 c3 c4 c5 c6 c7 := by
+    simp [mb20, callsignFields, hcodes, chars8]
+  have hrt := callsign_rt cs hcs
+  rw [hcodes] at hrt
+  have hfit : fits (mb20 cs) = true := by
+    obtain ⟨h0, h1, h2, h3, h4, h5, h6, h7⟩ := hlt
+    rw [hmb]; simp [fits, chars8, *]
+  refine commbCarries_of _ _ _ (by rw [hmb]; rfl) hfit ⟨0, 8, 0x20, by rw [hmb]; rfl, by decide⟩ ?_
+  intro b05 regs hregs
+  have hB := mbuf_pack (mb20 cs) (by rw [hmb]; rfl) hfit
+  rw [hmb] at hB hregs
+  exact regs_get20 hregs _ (hypo_bds20 _ c0 c1 c2 c3 c4 c5 c6 c7 cs hB hrt)
+
+/-- status bit of an optional quantity -/
+def stBit {α} (o : Option α) : Nat := if o.isSome then 1 else 0
+
+theorem stBit_lt {α} (o : Option α) : stBit o < 2 := by unfold stBit; split <;> decide
+
+/-- **BDS 4,0 in DF 20/21**: MCP/FCU and FMS selected altitudes on the whole 100 ft grid up to
+    45 000 ft (`some k` = 100·k ft, `none` = status bit clear), every pressure code (`some v` =
+    800 + 0.1·v mb), every mode bit and target source.  The payload must not be all zero (an all-zero
+    MB field means "no register"). -/
+theorem commb_bds40 (mcp fms baro : Option Nat) (sMode vnav ah app sSrc src : Nat)
+    (hmcp : ∀ k, mcp = some k → k ≤ 450) (hfms : ∀ k, fms = some k → k ≤ 450)
+    (hbaro : ∀ v, baro = some v → v < 2 ^ 12)
+    (h1 : sMode < 2 ^ 1) (h2 : vnav < 2 ^ 1) (h3 : ah < 2 ^ 1) (h4 : app < 2 ^ 1) (h5 : sSrc < 2 ^ 1)
+    (h6 : src < 2 ^ 2)
+    (hnz : NonZero (mb40 (stBit mcp) ((mcp.map fun k => selAlt40Code (100 * k)).getD 0)
+      (stBit fms) ((fms.map fun k => selAlt40Code (100 * k)).getD 0)
+      (stBit baro) ((baro.map fun v => qnh40Code (8000 + v)).getD 0) sMode vnav ah app sSrc src)) :
+    CommbCarries (mb40 (stBit mcp) ((mcp.map fun k => selAlt40Code (100 * k)).getD 0)
+        (stBit fms) ((fms.map fun k => selAlt40Code (100 * k)).getD 0)
+        (stBit baro) ((baro.map fun v => qnh40Code (8000 + v)).getD 0) sMode vnav ah app sSrc src)
+      (key! "bds40")
+      [ fld (key! "bds") (.lit (key! "40")),
+        skipNone (key! "selected_mcp") (mcp.map fun k => jnat (100 * k)),
+        skipNone (key! "selected_fms") (fms.map fun k => jnat (100 * k)),
+        skipNone (key! "barometric_setting") (baro.map fun v => jrat ((v + 8000 : Nat) : Int) 10),
+        skipNone (key! "target_source") (Bds40.targetSource src) ] := by
+  have alt_ok : ∀ o : Option Nat, (∀ k, o = some k → k ≤ 450) →
+      (o.map fun k => selAlt40Code (100 * k)).getD 0 < 2 ^ 12 ∧
+      Bds40.selectedAlt (stBit o == 1) ((o.map fun k => selAlt40Code (100 * k)).getD 0)
+        = .ok (o.map fun k => 100 * k) := by
+    intro o ho
+    cases o with
+    | none => exact ⟨by decide, rfl⟩
+    | some k =>
+      have := selalt40_rt k (by have := ho k rfl; omega) (ho k rfl)
+      exact ⟨this.1, this.2⟩
+  have q_ok : (baro.map fun v => qnh40Code (8000 + v)).getD 0 < 2 ^ 12 ∧
+      Bds40.qnhNum (stBit baro == 1) ((baro.map fun v => qnh40Code (8000 + v)).getD 0)
+        = .ok (baro.map fun v => v + 8000) := by
+    cases baro with
+    | none => exact ⟨by decide, rfl⟩
+    | some v =>
+      have := qnh40_rt v (hbaro v rfl)
+      simp only [Option.map_some, Option.getD_some, this.2]
+      exact ⟨hbaro v rfl, this.1⟩
+  obtain ⟨m1, m2⟩ := alt_ok mcp hmcp
+  obtain ⟨f1, f2⟩ := alt_ok fms hfms
+  obtain ⟨q1, q2⟩ := q_ok
+  have hfit : fits (mb40 (stBit mcp) ((mcp.map fun k => selAlt40Code (100 * k)).getD 0)
+      (stBit fms) ((fms.map fun k => selAlt40Code (100 * k)).getD 0)
+      (stBit baro) ((baro.map fun v => qnh40Code (8000 + v)).getD 0) sMode vnav ah app sSrc src) = true := by
+    simp [fits, mb40, stBit_lt, *]
+  refine commbCarries_of _ _ _ (by simp [width, mb40]) hfit hnz ?_
+  intro b05 regs hregs
+  have hB := mbuf_pack _ (by simp [width, mb40]) hfit
+  have := regs_get40 hregs _ (hypo_bds40 _ _ _ _ _ _ _ sMode vnav ah app sSrc src _ _ _ hB m2 f2 q2)
+  rw [this]
+  cases mcp <;> cases fms <;> cases baro <;> rfl
+
+/-- **BDS 5,0 in DF 20/21**: every code of every field inside the register's validity rules.
+    `some k` = status bit set with `k` LSBs, `none` = status bit clear (field zero).
+    roll `k·45/256`°, track `k·90/512`° mod 360, ground speed / TAS `2·v` kt, track rate `k·8/256` °/s. -/
+theorem commb_bds50 (roll trk : Option Int) (gs : Option Nat) (rate : Option Int) (tas : Option Nat)
+    (hroll : ∀ k, roll = some k → -512 ≤ k ∧ k < 512 ∧ k.natAbs ≤ 284)
+    (htrk : ∀ k, trk = some k → -1024 ≤ k ∧ k < 1024)
+    (hgs : ∀ v, gs = some v → v ≤ 300)
+    (hrate : ∀ k, rate = some k → -512 ≤ k ∧ k < 511 ∧ k ≠ -1 ∧
+      ∀ n, roll = some n → (0 ≤ n ∧ 0 ≤ k) ∨ (n ≤ 0 ∧ k ≤ 0))
+    (htas : ∀ t, tas = some t → t < 2 ^ 10 ∧
+      ∀ v, gs = some v → 80 ≤ 2 * t ∧ 2 * t ≤ 500 ∧ 2 * v ≤ 2 * t + 200 ∧ 2 * t ≤ 2 * v + 200)
+    (hnz : NonZero (mb50 (stBit roll) (roll.getD 0) (stBit trk) (trk.getD 0) (stBit gs) (gs.getD 0)
+      (stBit rate) (rate.getD 0) (stBit tas) (tas.getD 0))) :
+    CommbCarries (mb50 (stBit roll) (roll.getD 0) (stBit trk) (trk.getD 0) (stBit gs) (gs.getD 0)
+        (stBit rate) (rate.getD 0) (stBit tas) (tas.getD 0))
+      (key! "bds50")
+      [ fld (key! "bds") (.lit (key! "50")),
+        fldOpt (key! "roll") (roll.map fun k => jrat (k * 45) 256),
+        fldOpt (key! "track") (trk.map fun k => jrat ((k * 90) % (360 * 512)) 512),
+        fldOpt (key! "groundspeed") (gs.map fun v => jnat (2 * v)),
+        fldOpt (key! "track_rate") (rate.map fun k => jrat (k * 8) 256),
+        fldOpt (key! "TAS") (tas.map fun t => jnat (2 * t)) ] := by
+  have e1 : Bds50.roll (stBit roll == 1) (signBit (roll.getD 0)) (twosMag 9 (roll.getD 0)) = .ok roll := by
+    cases roll with
+    | none => rfl
+    | some k => obtain ⟨a, b, c⟩ := hroll k rfl; exact roll50_rt k a b c
+  have e2 : Bds50.track (stBit trk == 1) (signBit (trk.getD 0)) (twosMag 10 (trk.getD 0))
+      = .ok (trk.map fun k => (k * 90) % (360 * 512)) := by
+    cases trk with
+    | none => rfl
+    | some k => obtain ⟨a, b⟩ := htrk k rfl; exact track50_rt k a b
+  have e3 : Bds50.groundspeed (stBit gs == 1) (gs.getD 0) = .ok (gs.map fun v => 2 * v) := by
+    cases gs with
+    | none => rfl
+    | some v => exact gs50_rt v (by have := hgs v rfl; omega) (hgs v rfl)
+  have e4 : Bds50.rate roll (stBit rate == 1) (signBit (rate.getD 0)) (twosMag 9 (rate.getD 0))
+      = .ok (rate.map fun k => k * 8) := by
+    cases rate with
+    | none => rfl
+    | some k => obtain ⟨a, b, c, d⟩ := hrate k rfl; exact rate50_rt roll k a b c d
+  have e5 : Bds50.tas (gs.map fun v => 2 * v) (stBit tas == 1) (tas.getD 0) = .ok (tas.map fun t => 2 * t) := by
+    cases tas with
+    | none => rfl
+    | some t =>
+      obtain ⟨a, b⟩ := htas t rfl
+      refine tas50_rt _ t a ?_
+      intro g hg
+      cases gs with
+      | none => cases hg
+      | some v =>
+        simp only [Option.map_some, Option.some.injEq] at hg
+        subst hg
+        have := b v rfl
+        have := hgs v rfl
+        omega
+  have bits9 : ∀ k : Int, -512 ≤ k → k < 512 → twosMag 9 k < 2 ^ 9 ∧ signBit k < 2 ^ 1 := fun k a b =>
+    ⟨(signed512 k a b).1, (signed512 k a b).2.1⟩
+  have hfit : fits (mb50 (stBit roll) (roll.getD 0) (stBit trk) (trk.getD 0) (stBit gs) (gs.getD 0)
+      (stBit rate) (rate.getD 0) (stBit tas) (tas.getD 0)) = true := by
+    have r1 : -512 ≤ roll.getD 0 ∧ roll.getD 0 < 512 := by
+      cases roll with
+      | none => exact ⟨by decide, by decide⟩
+      | some k => obtain ⟨a, b, _⟩ := hroll k rfl; exact ⟨a, b⟩
+    have r2 : -1024 ≤ trk.getD 0 ∧ trk.getD 0 < 1024 := by
+      cases trk with
+      | none => exact ⟨by decide, by decide⟩
+      | some k => exact htrk k rfl
+    have r3 : gs.getD 0 < 2 ^ 10 := by
+      cases gs with
+      | none => decide
+      | some v => have := hgs v rfl; simp only [Option.getD_some]; omega
+    have r4 : -512 ≤ rate.getD 0 ∧ rate.getD 0 < 512 := by
+      cases rate with
+      | none => exact ⟨by decide, by decide⟩
+      | some k => obtain ⟨a, b, _⟩ := hrate k rfl; exact ⟨a, by simp only [Option.getD_some]; omega⟩
+    have r5 : tas.getD 0 < 2 ^ 10 := by
+      cases tas with
+      | none => decide
+      | some t => exact (htas t rfl).1
+    have t10 := signed1024 (trk.getD 0) r2.1 r2.2
+    simp [fits, mb50, stBit_lt, (bits9 _ r1.1 r1.2).1, (bits9 _ r1.1 r1.2).2, (bits9 _ r4.1 r4.2).1,
+      (bits9 _ r4.1 r4.2).2, t10.1, t10.2, r3, r5]
+  refine commbCarries_of _ _ _ (by simp [width, mb50]) hfit hnz ?_
+  intro b05 regs hregs
+  have hB := mbuf_pack _ (by simp [width, mb50]) hfit
+  have := regs_get50 hregs _ (hypo_bds50 _ _ _ _ _ _ _ _ _ _ _ _ _ _ _ _ hB e1 e2 e3 e4 e5)
+  rw [this]
+  cases roll <;> cases trk <;> cases gs <;> cases rate <;> cases tas <;> rfl
+
+/-- **BDS 6,0 in DF 20/21**: every code of every field inside the register's validity rules.
+    heading `k·90/512`° mod 360, IAS `v` kt, Mach `v·2.048/512`, vertical rates `32·k` ft/min
+    (−32 ft/min is reported as 0: one quantisation step). -/
+theorem commb_bds60 (hdg : Option Int) (ias mach : Option Nat) (baro inert : Option Int)
+    (hhdg : ∀ k, hdg = some k → -1024 ≤ k ∧ k < 1024)
+    (hias : ∀ v, ias = some v → 1 ≤ v ∧ v ≤ 500)
+    (hmach : ∀ v, mach = some v → 1 ≤ v ∧ v ≤ 250 ∧
+      ∀ i, ias = some i → ¬ (i > 250 ∧ v < 100) ∧ ¬ (i < 150 ∧ v > 125))
+    (hbaro : ∀ k, baro = some k → -512 ≤ k ∧ k < 512 ∧ k.natAbs ≤ 187)
+    (hin : ∀ k, inert = some k → -512 ≤ k ∧ k < 512 ∧ k.natAbs ≤ 187)
+    (hnz : NonZero (mb60 (stBit hdg) (hdg.getD 0) (stBit ias) (ias.getD 0) (stBit mach) (mach.getD 0)
+      (stBit baro) (baro.getD 0) (stBit inert) (inert.getD 0))) :
+    CommbCarries (mb60 (stBit hdg) (hdg.getD 0) (stBit ias) (ias.getD 0) (stBit mach) (mach.getD 0)
+        (stBit baro) (baro.getD 0) (stBit inert) (inert.getD 0))
+      (key! "bds60")
+      [ fld (key! "bds") (.lit (key! "60")),
+        skipNone (key! "heading") (hdg.map fun k => jrat ((k * 90) % (360 * 512)) 512),
+        skipNone (key! "IAS") (ias.map jnat),
+        skipNone (key! "Mach") (mach.map fun v => jrat (v * 2048) 512000),
+        skipNone (key! "vrate_barometric") (baro.map fun k => jint (if k = -1 then 0 else 32 * k)),
+        skipNone (key! "vrate_inertial") (inert.map fun k => jint (if k = -1 then 0 else 32 * k)) ] := by
+  have e1 : Bds60.heading (stBit hdg == 1) (signBit (hdg.getD 0)) (twosMag 10 (hdg.getD 0))
+      = .ok (hdg.map fun k => (k * 90) % (360 * 512)) := by
+    cases hdg with
+    | none => rfl
+    | some k => obtain ⟨a, b⟩ := hhdg k rfl; exact heading60_rt k a b
+  have e2 : Bds60.ias (stBit ias == 1) (ias.getD 0) = .ok ias := by
+    cases ias with
+    | none => rfl
+    | some v => obtain ⟨a, b⟩ := hias v rfl; exact ias60_rt v (by omega) a b
+  have e3 : Bds60.mach ias (stBit mach == 1) (mach.getD 0) = .ok mach := by
+    cases mach with
+    | none => rfl
+    | some v => obtain ⟨a, b, c⟩ := hmach v rfl; exact mach60_rt ias v a b c
+  have ev : ∀ o : Option Int, (∀ k, o = some k → -512 ≤ k ∧ k < 512 ∧ k.natAbs ≤ 187) →
+      Bds60.vertical (stBit o == 1) (signBit (o.getD 0)) (twosMag 9 (o.getD 0))
+        = .ok (o.map fun k => if k = -1 then 0 else 32 * k) := by
+    intro o ho
+    cases o with
+    | none => rfl
+    | some k => obtain ⟨a, b, c⟩ := ho k rfl; exact vrate60_rt k a b c
+  have bits9 : ∀ o : Option Int, (∀ k, o = some k → -512 ≤ k ∧ k < 512 ∧ k.natAbs ≤ 187) →
+      twosMag 9 (o.getD 0) < 2 ^ 9 ∧ signBit (o.getD 0) < 2 ^ 1 := by
+    intro o ho
+    have r : -512 ≤ o.getD 0 ∧ o.getD 0 < 512 := by
+      cases o with
+      | none => exact ⟨by decide, by decide⟩
+      | some k => obtain ⟨a, b, _⟩ := ho k rfl; exact ⟨a, b⟩
+    exact ⟨(signed512 _ r.1 r.2).1, (signed512 _ r.1 r.2).2.1⟩
+  have hfit : fits (mb60 (stBit hdg) (hdg.getD 0) (stBit ias) (ias.getD 0) (stBit mach) (mach.getD 0)
+      (stBit baro) (baro.getD 0) (stBit inert) (inert.getD 0)) = true := by
+    have r2 : -1024 ≤ hdg.getD 0 ∧ hdg.getD 0 < 1024 := by
+      cases hdg with
+      | none => exact ⟨by decide, by decide⟩
+      | some k => exact hhdg k rfl
+    have r3 : ias.getD 0 < 2 ^ 10 := by
+      cases ias with
+      | none => decide
+      | some v => have := hias v rfl; simp only [Option.getD_some]; omega
+    have r5 : mach.getD 0 < 2 ^ 10 := by
+      cases mach with
+      | none => decide
+      | some v => have := hmach v rfl; simp only [Option.getD_some]; omega
+    have t10 := signed1024 (hdg.getD 0) r2.1 r2.2
+    simp [fits, mb60, stBit_lt, (bits9 baro hbaro).1, (bits9 baro hbaro).2, (bits9 inert hin).1,
+      (bits9 inert hin).2, t10.1, t10.2, r3, r5]
+  refine commbCarries_of _ _ _ (by simp [width, mb60]) hfit hnz ?_
+  intro b05 regs hregs
+  have hB := mbuf_pack _ (by simp [width, mb60]) hfit
+  have := regs_get60 hregs _ (hypo_bds60 _ _ _ _ _ _ _ _ _ _ _ _ _ _ _ _ hB e1 e2 e3 (ev baro hbaro) (ev inert hin))
+  rw [this]
+  cases hdg <;> cases ias <;> cases mach <;> cases baro <;> cases inert <;> rfl
+
+/-- **A DF 20 payload is labelled as an airborne position only when its altitude equals the altitude of
+    the surveillance header.**  For every DF 20 reply — every FS, DR, UM, AC code, address, and *every*
+    56-bit MB content `mb` (any field list of total width 56, e.g. the single field `[(56, v)]`) that
+    is not all zero: if the decoded message has a `bds05` entry, that entry is an object whose
+    `altitude` is the integer `alt` reported for the AC field.  (An all-zero MB field yields no
+    register at all; DF 21 never tries the BDS 0,5 hypothesis.) -/
+theorem bds05_in_df20_only_if_alt_matches (fs dr um code addr : Nat) (mb : List Field)
+    (hfs : fs < 2 ^ 3) (hdr : dr < 2 ^ 5) (hum : um < 2 ^ 6) (hcode : code < 2 ^ 13) (haddr : addr < 2 ^ 24)
+    (hw : width mb = 56) (hfit : fits mb = true) (hnz : NonZero mb) :
+    ∃ alt regs, ac13 code = .ok alt ∧
+      tryFrom (buildCommB 20 fs dr um code addr mb) = .ok (toDecoded (.ok
+        ([dfTag (key! "20"), fld (key! "altitude") (jnat alt)] ++ regs ++ [fld (key! "icao24") (jhex6 addr)]))) ∧
+      ∀ j, Fields.get? regs (key! "bds05") = some j →
+        ∃ f, j = .obj (Fields.toObj f) ∧ Fields.get? f (key! "altitude") = some (.int alt) := by
+  obtain ⟨alt, halt⟩ := isOk_elim (ac13_total code hcode)
+  obtain ⟨b05, regs, hregs, hb05, htf⟩ := tryFrom_df20 fs dr um code addr alt mb hfs hdr hum hcode haddr hw hfit hnz halt
+  refine ⟨alt, regs, halt, htf, ?_⟩
+  intro j hj
+  rw [regs_get05 hregs] at hj
+  cases b05 with
+  | none => simp [nestVal] at hj
+  | some v =>
+    cases v with
+    | error e => simp [nestVal] at hj
+    | ok f =>
+      simp only [nestVal, Option.some.injEq] at hj
+      exact ⟨f, hj.symm, hb05 f rfl⟩
+
+/-- DF 21 never labels its payload as an airborne position -/
+theorem bds05_not_in_df21 (fs dr um code addr : Nat) (mb : List Field)
+    (hfs : fs < 2 ^ 3) (hdr : dr < 2 ^ 5) (hum : um < 2 ^ 6) (hcode : code < 2 ^ 13) (haddr : addr < 2 ^ 24)
+    (hw : width mb = 56) (hfit : fits mb = true) (hnz : NonZero mb) :
+    ∃ regs,
+      tryFrom (buildCommB 21 fs dr um code addr mb) = .ok (toDecoded (.ok
+        ([dfTag (key! "21"), fld (key! "squawk") (jhex4 (decodeId13 code))] ++ regs ++
+          [fld (key! "icao24") (jhex6 addr)]))) ∧
+      Fields.get? regs (key! "bds05") = none := by
+  obtain ⟨regs, hregs, htf⟩ := tryFrom_df21 fs dr um code addr mb hfs hdr hum hcode haddr hw hfit hnz
+  exact ⟨regs, htf, by rw [regs_get05 hregs]; rfl⟩
 
 end Rs1090.Props.C03
